@@ -20,7 +20,7 @@ STATS = {"z3": 0, "cvc5": 0, "z3_s": 0.0, "cvc5_s": 0.0, "queries": 0}
 def check(formulas, timeout_ms=None, want_model=True, use_cvc5=True):
     """returns (status, model_or_None, backend, seconds); status in {'unsat','sat','unknown'}"""
     s = z3.Solver()
-    s.set("timeout", timeout_ms or Z3_TIMEOUT_MS)
+    s.set("timeout", (timeout_ms or Z3_TIMEOUT_MS) // 2)
     s.add(*formulas)
     t = time.time()
     r = s.check()
@@ -33,6 +33,29 @@ def check(formulas, timeout_ms=None, want_model=True, use_cvc5=True):
     if r == z3.sat:
         STATS["z3"] += 1
         return "sat", (s.model() if want_model else None), "z3", dt
+    # second attempt: simplify + solve-eqs preprocessing (often decisive for ite-heavy arithmetic)
+    try:
+        t = time.time()
+        pre = z3.Then(z3.Tactic("simplify"), z3.Tactic("solve-eqs"), z3.Tactic("smt"))
+        s2 = pre.solver()
+        s2.set("timeout", timeout_ms or Z3_TIMEOUT_MS)
+        s2.add(*[z3.simplify(f) for f in formulas])
+        r2 = s2.check()
+        dt += time.time() - t
+        STATS["z3_s"] += time.time() - t
+        if r2 == z3.unsat:
+            STATS["z3"] += 1
+            return "unsat", None, "z3 (simplify, solve-eqs)", dt
+        if r2 == z3.sat:
+            # models of the preprocessed problem may miss eliminated variables: get one from the plain solver
+            s3 = z3.Solver()
+            s3.set("timeout", timeout_ms or Z3_TIMEOUT_MS)
+            s3.add(*formulas)
+            if s3.check() == z3.sat:
+                STATS["z3"] += 1
+                return "sat", (s3.model() if want_model else None), "z3", dt
+    except z3.Z3Exception:
+        pass
     if use_cvc5 and os.path.exists(CVC5):
         t = time.time()
         res = _cvc5(s.to_smt2())
